@@ -381,4 +381,6 @@ fn groups(g: &mut Groups) {
     g.prop("twin", 15_000, 1_500_000, || case(), check_case);
     super::e3::c15_groups(g);
     g.prop("cli_env", 1_200, 60_000, || cli_case(), check_cli);
+    // The same route with the command line parsed in this process (hook `__verif::cli`).
+    g.prop("cli_env_inproc", 10_000, 500_000, || cli_case(), |c| twin::with_cli_in_process(|| check_cli(c)));
 }
